@@ -170,6 +170,7 @@ def run(run, tier, replay):
         p_unsync = os.path.join(tmp, "unsync.jsonl")
         p_file = os.path.join(tmp, "file.jsonl")
         p_sync = os.path.join(tmp, "sync.jsonl")
+        p_sync2 = os.path.join(tmp, "sync2.jsonl")
         p_prod = os.path.join(tmp, "prod.jsonl")
         with cf.ThreadPoolExecutor(max_workers=4) as pool:
             mc = [pool.submit(_run_mc, j) for j in _mc_jobs(tier)]
@@ -182,7 +183,7 @@ def run(run, tier, replay):
                 "sync": pool.submit(_gen, "Gen_SharedFdSync",
                                     "Gen_SharedFdSync_drops.cfg" if tier == "quick" else "Gen_SharedFdSync_3.cfg", p_sync),
                 "sync2": pool.submit(_gen, "Gen_SharedFdSync",
-                                     "Gen_SharedFdSync_t2.cfg" if tier == "quick" else "Gen_SharedFdSync_full.cfg", p_sync + ".2"),
+                                     "Gen_SharedFdSync_t2.cfg" if tier == "quick" else "Gen_SharedFdSync_full.cfg", p_sync2),
                 "prod": pool.submit(_gen, "Gen_SharedFdProd",
                                     "Gen_SharedFdProd.cfg" if tier == "quick" else "Gen_SharedFdProd_thorough.cfg", p_prod),
             }
@@ -209,7 +210,7 @@ def run(run, tier, replay):
             p2 = os.path.join(tmp, "sync_s.jsonl")
             counts["sync_replayed"] = _subset(p_sync, p2, 4000, rnd)
             p_sync = p2
-        with open(p_sync, "a") as f, open(p_sync + ".2") as g2:
+        with open(p_sync, "a") as f, open(p_sync2) as g2:
             shutil.copyfileobj(g2, f)
             p3 = os.path.join(tmp, "prod_s.jsonl")
             # every single-shot program, a seeded sample of the (many) multishot programs
